@@ -79,3 +79,11 @@ package tcp
 //@   prop C09
 //@   requires p != nil
 //@   callpre Drain @the-listener-of-this-processor-is-drained arg0 == p.ln
+
+// ---- C06/C08: a configuration update keeps the balancer (and its rotation) unless the policy itself changes ----
+
+//@ func (*tcpProc).OnSvcConfigUpdate
+//@   prop C06 C08
+//@   requires p != nil && p.cfg != nil && c != nil
+//@   modifies all
+//@   callpre lb.New @the-balancer-is-replaced-only-when-the-policy-changes arg0 == c.LbPolicy && ite(p.cfg == nil, 0, p.cfg.LbPolicy) != arg0
